@@ -67,7 +67,7 @@ func ruleC15Codec(c *Ctx) {
 			}
 		}
 		w := RR.V(v)
-		w = strings.TrimPrefix(w, "&var(msg).")
+		w = strings.TrimPrefix(w, "&var(rpc.Message).")
 		rseq = append(rseq, codecItem{what: w, typ: t, ord: RR.V(cl.Call.Args[1]), at: in})
 	}
 	want := []struct{ f, t string }{{"MagicVersion", "uint16"}, {"Seq", "uint32"}, {"Type", "uint32"}, {"Offset", "int64"}, {"Size", "int64"}}
@@ -82,7 +82,7 @@ func ruleC15Codec(c *Ctx) {
 		if i < 5 {
 			okItem = okItem && w.what == want[i].f && r.what == want[i].f && w.typ == want[i].t
 		} else {
-			okItem = okItem && w.what == "len($1.Data)" && w.typ == "uint32" && strings.HasPrefix(r.what, "&var(length)")
+			okItem = okItem && w.what == "len($1.Data)" && w.typ == "uint32" && strings.HasPrefix(r.what, "&var(uint32)")
 		}
 		if okItem {
 			c.OK(rule, key, c.P.InstrPos(w.at), fmt.Sprintf("write %s:%s == read %s:%s, %s", w.what, w.typ, r.what, r.typ, w.ord), true)
@@ -112,27 +112,27 @@ func ruleC15Codec(c *Ctx) {
 	rf := CallsTo(rfn, "io.ReadFull")
 	var dataStores []ssa.Instruction
 	eachInstr(rfn, func(in ssa.Instruction) {
-		if s, ok := in.(*ssa.Store); ok && RR.V(s.Addr) == "&var(msg).Data" {
+		if s, ok := in.(*ssa.Store); ok && RR.V(s.Addr) == "&var(rpc.Message).Data" {
 			dataStores = append(dataStores, in)
 		}
 	})
 	if len(rf) == 1 && len(dataStores) == 1 {
 		st := dataStores[0].(*ssa.Store)
 		ms, isMake := strip(st.Val).(*ssa.MakeSlice)
-		if isMake && RR.V(ms.Len) == "var(length)" {
+		if isMake && RR.V(ms.Len) == "var(uint32)" {
 			c.OK(rule, "frame payload | fresh buffer of the announced length", c.P.InstrPos(st), "msg.Data = make([]byte, length): every decoded frame owns its payload", true)
 		} else {
 			c.Bad(rule, "frame payload | fresh buffer of the announced length", c.P.InstrPos(st), "msg.Data is "+RR.V(st.Val)+": the payload buffer must be a fresh make([]byte, length) (a shared buffer is overwritten by the next frame while the previous reply is still being consumed)", nil)
 		}
-		if callRender(RR, rf[0]) == "io.ReadFull($0.reader,var(msg).Data)" || strings.HasPrefix(callRender(RR, rf[0]), "io.ReadFull($0.reader,makeslice(") {
+		if callRender(RR, rf[0]) == "io.ReadFull($0.reader,var(rpc.Message).Data)" || strings.HasPrefix(callRender(RR, rf[0]), "io.ReadFull($0.reader,makeslice(") {
 			c.OK(rule, "frame payload | read in full", c.P.InstrPos(rf[0]), "io.ReadFull(w.reader, msg.Data)", false)
 		} else {
 			c.Bad(rule, "frame payload | read in full", c.P.InstrPos(rf[0]), "payload read is "+callRender(RR, rf[0]), nil)
 		}
-		c.Guard(rule, rfn, rf, "read payload", nil, Need{Desc: "length read", Edge: successEdgesOfCall(rfn, rseq[5].at)}, atom("length > 0", "+var(length) !=0", "+var(length) -1 >=0"))
+		c.Guard(rule, rfn, rf, "read payload", nil, Need{Desc: "length read", Edge: successEdgesOfCall(rfn, rseq[5].at)}, atom("length > 0", "+var(uint32) !=0", "+var(uint32) -1 >=0"))
 		c.Guard(rule, rfn, nilErrorReturns(rfn), "return frame", nil,
-			Need{Desc: "payload read or empty", Atoms: []string{"+var(length) ==0", "-var(length) >=0"}, Edge: successEdgesOfCall(rfn, rf[0])},
-			atom("magic/version matches", "+var(msg).MagicVersion -6915 ==0"))
+			Need{Desc: "payload read or empty", Atoms: []string{"+var(uint32) ==0", "-var(uint32) >=0"}, Edge: successEdgesOfCall(rfn, rf[0])},
+			atom("magic/version matches", "+var(rpc.Message).MagicVersion -6915 ==0"))
 	} else {
 		c.Bad(rule, "frame payload | read", "", "Wire.Read must allocate and ReadFull the payload", nil)
 	}
@@ -425,7 +425,7 @@ func ruleC15Client(c *Ctx) {
 				if strings.HasPrefix(s, fCli+"operation$1(") {
 					hasDeadline = true
 				}
-				if s == "var(msg).Complete" {
+				if s == "var(rpc.Message).Complete" {
 					hasComplete = true
 				}
 			}
@@ -593,7 +593,7 @@ func ruleC17Attach(c *Ctx) {
 	if fn := c.Anchor(rule, "(*backend/remote.Factory).Create"); fn != nil {
 		sites := append(CallsTo(fn, "net.Dial"), CallsTo(fn, fRem+"open")...)
 		c.Guard(rule, fn, sites, "attach", nil,
-			atom("replica reports state closed", eqAtom(`"closed"`, "var(replica).ReplicaInfo.State")),
+			atom("replica reports state closed", eqAtom(`"closed"`, "var(replica/rest.Replica).ReplicaInfo.State")),
 			atom("state fetched", isNilAtom(fRem+"info(&var(complit))#1")))
 		if len(sites) < 2 {
 			c.Bad(rule, FnName(fn)+" | structure", "", "expected net.Dial and r.open()", nil)
